@@ -63,7 +63,9 @@ class Rel16Relocation(Relocation):
     field = "imm16"
 
     def calc(self, sym_value, reloc_value):
-        return sym_value - reloc_value
+        offset = sym_value - reloc_value
+        assert offset in range(-(1 << 15), 1 << 15), str(offset)
+        return offset
 
 
 # Helpers:
